@@ -76,6 +76,16 @@ theorem reopen_after_remove (s : Slots) (h : Inv s) (id : Nat) (hid : id ∈ s.o
   have hn : id ∉ (remove s id).1.open_ := fun hx => ((remove_spec s h id).2 id).mp hx |>.2 rfl
   exact ((insertSome_spec (remove s id).1 id).1 ⟨h1, hm ▸ h2, hn⟩).1
 
+/-- After a close, an AUTOMATIC open succeeds too - from every state satisfying the invariant, in
+    particular with the counter past `channel_max` and every other id open: the closed id is never
+    lost to the automatic path (it is open-able via the counter or via the freed set). -/
+theorem auto_open_after_remove (s : Slots) (h : Inv s) (id : Nat) (hid : id ∈ s.open_) :
+    ∃ id', (insertNone (remove s id).1).2 = .ok id' := by
+  obtain ⟨h1, h2⟩ := h.2.1 id hid
+  have hw := Slots.wf_remove h id
+  have hn : id ∉ (remove s id).1.open_ := fun hx => ((remove_spec s h id).2 id).mp hx |>.2 rfl
+  exact insertNone_succeeds (remove s id).1 hw.1 id h1 (hw.2 ▸ h2) hn
+
 /-- No reachable state hands out id 0, by either path, and no operation panics. -/
 theorem never_zero_never_panic (max : Nat) (ops : List Op) (id : Nat) :
     let s := ops.foldl step (Slots.new max)
